@@ -2,7 +2,7 @@
    Statements only; proofs in IntegrateProofs.v (any numeric carrier), IntegrateRProofs.v (reals, 1-D) and
    LaplaceProofs.v (reals: Laplacian, solvability, conjugate gradient, Poisson statement). *)
 From Coq Require Import ZArith List Bool Reals Lia.
-From CV Require Import Base.Num Base.RNum C16.IntegrateModel C16.IntegrateProofs C16.IntegrateRProofs C16.LaplaceProofs.
+From CV Require Import Base.Num Base.RNum C16.IntegrateModel C16.IntegrateProofs C16.IntegrateRProofs C16.LaplaceProofs C16.LoopsProofs.
 Import ListNotations.
 
 (* ---------------------------------------------------------------------------------------------
@@ -247,6 +247,84 @@ Theorem C16_poisson_3d : forall (sc : smooth_cfg) (sm : bool) (sh : shape3 (T:=R
   ((1 <= out_iter _ o < Z.of_nat itmax)%Z -> (out_err _ o <= tol)%R).
 Proof. exact poisson3_history. Qed.
 Print Assumptions C16_poisson_3d.
+
+(* The C++ atimes (nd == 2) is hand-indexed loops over the flat arrays (x terms assigned: interior columns, then
+   the two edge columns in lockstep; y terms added: interior rows, then the two edge rows in lockstep; each loop
+   written first / middle / last with running indices and a running edge factor).  atimes2_loops mirrors those loops
+   statement by statement on flat arrays and is tied bit for bit to the C++ (shapes up to 11 x 11); this theorem
+   says that, for EVERY shape with at least two points per dimension, every periodicity pattern, any widths, any
+   initial content of LA, the loops compute the per-point stencil atimes2 (about which all theorems above are
+   stated) at every grid point (flat index i*h + j).  The 3-D loops are tied per point only. *)
+Theorem C16_atimes_loops_eq_stencil_2d : forall (sh : shape2 (T:=R)) (A LA : Z -> R) (i j : Z),
+  (2 <= npmf (px sh) (nxg sh))%Z -> (2 <= npmf (py sh) (nyg sh))%Z ->
+  (0 <= i < npmf (px sh) (nxg sh))%Z -> (0 <= j < npmf (py sh) (nyg sh))%Z ->
+  atimes2_loops Rops sh A LA (i * npmf (py sh) (nyg sh) + j) =
+  atimes2 Rops sh (fun p => A (fst p * npmf (py sh) (nyg sh) + snd p)%Z) (i, j).
+Proof. intros sh A LA i j Hw Hh. exact (atimes2_loops_eq_stencil sh A Hw Hh LA i j). Qed.
+Print Assumptions C16_atimes_loops_eq_stencil_2d.
+
+Example C16_example_loops : (2 <= npmf (px sh22) (nxg sh22))%Z /\ (2 <= npmf (py sh22) (nyg sh22))%Z.
+Proof. split; vm_compute; discriminate. Qed.
+
+(* The iterations of the solver never increase the error in the energy ((-A)-) norm: for ANY surface xs that solves
+   the discrete Poisson problem of the final gradients, |x_out - xs|_A <= |x_0 - xs|_A, whatever itmax and tol
+   (exact arithmetic; uses symmetry, semi-definiteness, kernel = constants and the zero sum of the divergence).
+   err_norm2 xs x = - <x - xs, A (x - xs)>.  Termination of conjugate gradient in at most n steps is not proved. *)
+Theorem C16_cg_error_monotone_2d : forall (sc : smooth_cfg) (sm : bool) (sh : shape2 (T:=R)) (st0 : state2 (T:=R))
+    (pre h : list ((Z * Z) * (R * R))) (itmax : nat) (tol : R) (x0 : Z * Z -> R) (err0 : R) (xs : Z * Z -> R),
+  (0 < nxg sh)%Z -> (0 < nyg sh)%Z -> wx sh <> 0%R -> wy sh <> 0%R -> Forall (fun e => in_grad2 sh (fst e)) h ->
+  let st := run2 Rops sc sm sh (set_div2 Rops sc sm sh (preload2 Rops st0 pre)) h in
+  (forall q, in_pmf2 sh q -> atimes2 Rops sh xs q = div_value2 Rops sc sm sh st q) ->
+  (err_norm2 _ (all_ix2 sh) (atimes2 Rops sh) xs (out_x _ (integrate2 Rops sh itmax tol (dv2 st) x0 err0))
+   <= err_norm2 _ (all_ix2 sh) (atimes2 Rops sh) xs x0)%R.
+Proof. exact cg_error_monotone2_history. Qed.
+Print Assumptions C16_cg_error_monotone_2d.
+
+Theorem C16_cg_error_monotone_3d : forall (sc : smooth_cfg) (sm : bool) (sh : shape3 (T:=R)) (st0 : state3 (T:=R))
+    (pre h : list ((Z * Z * Z) * (R * R * R))) (itmax : nat) (tol : R) (x0 : Z * Z * Z -> R) (err0 : R) (xs : Z * Z * Z -> R),
+  (0 < mxg sh)%Z -> (0 < myg sh)%Z -> (0 < mzg sh)%Z -> vx sh <> 0%R -> vy sh <> 0%R -> vz sh <> 0%R ->
+  Forall (fun e => in_grad3 sh (fst e)) h ->
+  let st := run3 Rops sc sm sh (set_div3 Rops sc sm sh (preload3 Rops st0 pre)) h in
+  (forall q, in_pmf3 sh q -> atimes3 Rops sh xs q = div_value3 Rops sc sm sh st q) ->
+  (err_norm2 _ (all_ix3 sh) (atimes3 Rops sh) xs (out_x _ (integrate3 Rops sh itmax tol (dv3 st) x0 err0))
+   <= err_norm2 _ (all_ix3 sh) (atimes3 Rops sh) xs x0)%R.
+Proof. exact cg_error_monotone3_history. Qed.
+Print Assumptions C16_cg_error_monotone_3d.
+
+(* a Poisson problem with a solution (premise of the two theorems above): A (-b22) = b22 on the 2x2 grid *)
+Example C16_example_solution_exists : forall q, In q (all_ix2 sh22) -> atimes2 Rops sh22 (fun p => (0 + -1 * b22 p)%R) q = b22 q.
+Proof. exact b22_solution. Qed.
+
+(* The grids on which integrate() refuses to work (after "fix: 2-D/3-D PMF integration on a grid with a single point
+   along a periodic variable indexed outside its arrays"): exactly those with a periodic variable whose single bin
+   spans the period; the constructor raises an input error (the ABF bias is not created) and integrate() makes no
+   iteration and leaves the surface and the caller's error variable untouched.  All Laplacian / Poisson theorems
+   above concern the per-point stencil, which the C++ loops implement for >= 2 points per dimension
+   (tied by the correspondence check). *)
+Theorem C16_grid_refused_iff_single_point_periodic_2d : forall (sh : shape2 (T:=R)), (0 < nxg sh)%Z -> (0 < nyg sh)%Z ->
+  (shape_ok2 sh = false <-> (px sh = true /\ nxg sh = 1%Z) \/ (py sh = true /\ nyg sh = 1%Z)).
+Proof. exact (@shape_ok2_spec R). Qed.
+Print Assumptions C16_grid_refused_iff_single_point_periodic_2d.
+
+Theorem C16_grid_refused_iff_single_point_periodic_3d : forall (sh : shape3 (T:=R)),
+  (0 < mxg sh)%Z -> (0 < myg sh)%Z -> (0 < mzg sh)%Z ->
+  (shape_ok3 sh = false <->
+   (qx sh = true /\ mxg sh = 1%Z) \/ (qy sh = true /\ myg sh = 1%Z) \/ (qz sh = true /\ mzg sh = 1%Z)).
+Proof. exact (@shape_ok3_spec R). Qed.
+Print Assumptions C16_grid_refused_iff_single_point_periodic_3d.
+
+Theorem C16_refused_grid_untouched_2d : forall (sh : shape2 (T:=R)) itmax tol D x0 err0, shape_ok2 sh = false ->
+  let o := integrate2 Rops sh itmax tol D x0 err0 in out_iter _ o = 0%Z /\ out_x _ o = x0 /\ out_err _ o = err0.
+Proof. exact integrate2_refused. Qed.
+Print Assumptions C16_refused_grid_untouched_2d.
+
+Theorem C16_refused_grid_untouched_3d : forall (sh : shape3 (T:=R)) itmax tol D x0 err0, shape_ok3 sh = false ->
+  let o := integrate3 Rops sh itmax tol D x0 err0 in out_iter _ o = 0%Z /\ out_x _ o = x0 /\ out_err _ o = err0.
+Proof. exact integrate3_refused. Qed.
+Print Assumptions C16_refused_grid_untouched_3d.
+
+Example C16_example_refused : shape_ok2 (mkShape2 true false 1 3 1%R 1%R) = false /\ shape_ok2 sh22 = true.
+Proof. split; reflexivity. Qed.
 
 (* non-vacuity of (2) and (3): on the 2x2 (2x2x2) grid of a single non-periodic bin per dimension the solver makes
    one iteration and reports err = 0 for a right-hand side that is an eigenvector of the Laplacian *)
